@@ -1,9 +1,21 @@
-import Cutadapt.Proofs.RunnerWriter
-/-! # C06 — multi-core runs give the single-core result under every schedule (work in progress: writer part) -/
+import Cutadapt.Proofs.RunnerSerial
+/-! # C06 — multi-core runs give the single-core result under every schedule
+
+Model: `Cutadapt/Runner.lean` — a labelled transition system for `runners.py` (`ReaderProcess`, `WorkerProcess`,
+`OrderedChunkWriter`, `ParallelPipelineRunner.run`), generic in the per-chunk processing function `process`, and
+`serialRun` for the one-process loop.  All theorems hold for every number of workers `≥ 1`, every list of chunks (every
+`--buffer-size`), every `process`, and every sequence of actions (`Reachable`: induction over traces with the inductive
+invariants `RunInv`, `SafeInv`, `StatsInv` of `Proofs/Runner*.lean`).  The order of merging statistics is irrelevant under the
+hypothesis `IsCommMonoid add zero` (`Statistics.__iadd__` is associative and commutative with `Statistics()` neutral; the
+harness validates this on real `Statistics` objects). -/
 namespace Cutadapt.C06
 open Cutadapt Cutadapt.Runner
 
-/-- **`OrderedChunkWriter`**: feeding the pairs `(data i, i)`, `i < N`, each exactly once, in any order (`feed` is a
+variable {Chunk Stats Fault : Type}
+
+/-! ## `OrderedChunkWriter` -/
+
+/-- **`ordered_writer`**: feeding the pairs `(data i, i)`, `i < N`, each exactly once, in any order (`feed` is a
     permutation of `0 … N-1`) leaves nothing pending and writes `data 0 ++ … ++ data (N-1)`. -/
 theorem ordered_writer (data : Nat → Bytes) (N : Nat) (feed : List Nat) (h : feed.Perm (List.range N)) :
     (feedAll data feed).pending = [] ∧ (feedAll data feed).written = concatRange data N := by
@@ -24,5 +36,105 @@ theorem ordered_writer_prefix (data : Nat → Bytes) (arrived : List Nat) (h : a
   rcases hi.below i hlt with h1 | h1
   · exact h1
   · exact h1.elim
+
+/-- three chunks arriving in the order 2, 0, 1 -/
+example : (feedAll (fun i => [i.toUInt8]) [2, 0, 1]).written = [0, 1, 2] ∧ (feedAll (fun i => [i.toUInt8]) [2, 0]).written = [0] ∧
+    (feedAll (fun i => [i.toUInt8]) [2]).written = [] := by decide
+
+/-! ## The protocol -/
+
+/-- **`each_chunk_once`**: in every reachable state (running or stopped) every chunk index below the reader's position
+    occurs exactly once — in some worker's inbox, being processed by some worker (or lost in a worker that raised while
+    processing it), as a result in some worker's outbox, or in the main process's received set — and no other index
+    occurs anywhere. -/
+theorem each_chunk_once (cfg : Config Chunk Stats Fault) (hn : 0 < cfg.nWorkers) {s : State Stats} (hr : Reachable cfg s) (i : Nat) :
+    sumW cfg.nWorkers (fun w => ((s.workers w).inbox.count (.chunk i) + cntProc i (s.workers w).phase + cntRes i (s.workers w).outbox
+        + (if (s.workers w).lost = some i then 1 else 0))) + s.received.count i
+      = if i < s.next then 1 else 0 :=
+  reachable_once hn hr i
+
+/-- no result is ever received twice -/
+theorem received_nodup (cfg : Config Chunk Stats Fault) (hn : 0 < cfg.nWorkers) {s : State Stats} (hr : Reachable cfg s) :
+    s.received.Nodup := by
+  rw [List.nodup_iff_count]
+  intro i
+  have := reachable_once hn hr i
+  split at this <;> omega
+
+/-- **`parallel_equals_serial`**: every terminal state in which the main process returned normally (exit status 0) has,
+    for every output file, exactly the bytes of the serial run, and the merged statistics are those of the serial run;
+    the serial run succeeds as well, and the `assert writer.wrote_everything()` holds. -/
+theorem parallel_equals_serial (cfg : Config Chunk Stats Fault) (hn : 0 < cfg.nWorkers) (hm : IsCommMonoid cfg.add cfg.zero)
+    {s : State Stats} (hr : Reachable cfg s) (hok : s.outcome = .ok) :
+    (serialRun cfg).outcome = .ok ∧ (∀ f, (s.writers f).written = (serialRun cfg).written f) ∧
+    s.mstats = (serialRun cfg).stats ∧ (∀ f, (s.writers f).wroteEverything = true) := by
+  obtain ⟨hsafe, _, hend⟩ := reachable_inv hn hr
+  have hf := hend.ok hok
+  have hst := reachable_stats hm hn hr
+  have hmem : ∀ i, i ∈ s.received ↔ i < cfg.chunks.length := by
+    intro i
+    have := hf.all i
+    rw [← List.count_pos_iff]
+    split at this <;> rename_i hi <;> simp only [hi, iff_true, iff_false] <;> omega
+  have hS := serialRun_spec cfg
+  have hdone : (serialRun cfg).done = cfg.chunks.length := by
+    rcases Nat.lt_or_ge (serialRun cfg).done cfg.chunks.length with hlt | hge
+    · have h1 := hS.stopped hlt
+      have h2 := hsafe.recvOk _ ((hmem _).mpr hlt)
+      rw [h1] at h2; cases h2
+    · have := hS.done_le; omega
+  refine ⟨hS.ok_iff.mpr ⟨hdone, hf.noReaderFault⟩, fun f => ?_, ?_, fun f => ?_⟩
+  · have := (hsafe.writers f).complete hmem
+    rw [this.2.2, hS.written f, hdone]
+  · -- statistics: everything has been merged, nothing is left in the workers or the outboxes
+    unfold StatsInv at hst
+    have h1 : sumS cfg.add cfg.zero cfg.nWorkers (pend cfg s) = cfg.zero :=
+      sumS_zero hm (fun v hv => by simp [pend, hf.closed v hv])
+    have h2 : sumS cfg.add cfg.zero cfg.nWorkers (outRes cfg s) = cfg.zero :=
+      sumS_zero hm (fun v hv => by simp [outRes, hf.drained v hv, resStats])
+    rw [h1, h2, hm.add_zero, hm.add_zero] at hst
+    rw [hst, wsum_perm hm _ (perm_range_of_count hf.all), wsum_range hm, hS.stats, hdone]
+  · have := (hsafe.writers f).complete hmem
+    simp [Writer.wroteEverything, this.2.1]
+
+/-- **`no_deadlock`**: in every reachable state in which the main process is still in its loop some action is enabled. -/
+theorem no_deadlock (cfg : Config Chunk Stats Fault) (hn : 0 < cfg.nWorkers) {s : State Stats} (hr : Reachable cfg s)
+    (hrun : s.outcome = .running) : ∃ a s', step cfg s a = some s' := by
+  obtain ⟨a, ha⟩ := enabled_of_running hn ((reachable_inv hn hr).2.1 hrun) hrun
+  obtain ⟨s', hs'⟩ := Option.isSome_iff_exists.mp ha
+  exact ⟨a, s', hs'⟩
+
+/-- **`terminates`**: the measure (chunks unsent, pills unsent, the reader's pending fault, messages in flight, worker
+    phases, main process running) strictly decreases with every action … -/
+theorem terminates (cfg : Config Chunk Stats Fault) {s s' : State Stats} {a : Action} (hs : step cfg s a = some s') :
+    measure cfg s' < measure cfg s :=
+  measure_decreases hs
+
+/-- … so every execution is finite: from `s` at most `measure s` actions can be taken. -/
+theorem executions_finite (cfg : Config Chunk Stats Fault) {s s' : State Stats} (tr : List Action) (h : run cfg s tr = some s') :
+    tr.length ≤ measure cfg s := by
+  have := run_length_le tr h; omega
+
+/-- Every maximal execution (one that cannot be extended) from the initial state ends with the main process stopped;
+    if it returned normally the outputs are the serial ones. -/
+theorem maximal_execution_ends (cfg : Config Chunk Stats Fault) (hn : 0 < cfg.nWorkers) (tr : List Action) {s : State Stats}
+    (h : run cfg (init cfg) tr = some s) (hmax : ∀ a, step cfg s a = none) : s.outcome ≠ .running := by
+  intro hrun
+  obtain ⟨a, s', hs⟩ := no_deadlock cfg hn (reachable_run tr Reachable.init h) hrun
+  rw [hmax a] at hs; cases hs
+
+/-! ## A concrete instance: 2 workers, 3 chunks, one particular interleaving (results arrive in the order 1, 0, 2) -/
+
+def exampleTrace : List Action :=
+  [.workerRequest 1, .workerRequest 0, .readerSend, .readerSend, .workerStep 0, .workerStep 1, .workerStep 0, .workerStep 1,
+   .mainRecv 0, .workerRequest 0, .readerSend, .mainRecv 1, .workerStep 0, .workerRequest 1, .readerPill, .workerStep 0,
+   .workerRequest 0, .readerPill, .workerStep 1, .workerStep 0, .mainRecv 1, .mainRecv 0, .mainRecv 0, .mainFinish]
+
+example : (run (toyConfig 2 3 [] false) (init (toyConfig 2 3 [] false)) exampleTrace).map
+      (fun s => ((s.writers 0).written, s.received, s.mstats, s.outcome))
+    = some ([0, 0, 1, 0, 2, 0], [2, 0, 1], 7, .ok) := by decide
+
+example : ((serialRun (toyConfig 2 3 [] false)).written 0, (serialRun (toyConfig 2 3 [] false)).stats) = ([0, 0, 1, 0, 2, 0], 7) := by
+  decide
 
 end Cutadapt.C06
